@@ -51,6 +51,11 @@ Theorem C12_dup_sub_expr_same : forall o x y, dup_sub_expr (EBinary o x y) = tru
 Proof. exact dup_sub_expr_same. Qed.
 Print Assumptions C12_dup_sub_expr_same.
 
+(* dupArg (strings.Index/Contains/Compare, bytes.Equal with the same pure argument twice) *)
+Theorem C12_dup_arg_same : forall p x y, dup_arg (ECall (FPrim p) [x; y]) = true -> same_value x y.
+Proof. exact dup_arg_same. Qed.
+Print Assumptions C12_dup_arg_same.
+
 Theorem C12_dup_float_exemption_needed :
   cmp_val OEq (VFloat FNaN) (VFloat FNaN) = Some false /\ cmp_val ONe (VFloat FNaN) (VFloat FNaN) = Some true /\
   dup_sub_expr (EBinary OEq (EIdent "x" TFloat) (EIdent "x" TFloat)) = false /\
